@@ -3,6 +3,7 @@ import SJ.Generated.GoTables
 import SJ.Model.Access
 import SJ.Model.Number
 import SJ.Model.Marshal
+import SJ.Model.StringDec
 set_option linter.unusedVariables false
 /-
 GoSem — a small imperative language with a big-step interpreter, the target of the Go→Lean translator
@@ -47,7 +48,7 @@ inductive Val where
   deriving DecidableEq, Repr, Inhabited
 
 inductive BinOp where
-  | add | sub | and | or | shr | shl | eq | ne | lt | le | gt | ge | xor | div
+  | add | sub | and | or | shr | shl | eq | ne | lt | le | gt | ge | xor | div | mul
   deriving DecidableEq, Repr
 
 inductive Expr where
@@ -72,6 +73,8 @@ inductive Expr where
   | nilB                                    -- `nil` as a byte slice
   | litB (bs : List Nat)                    -- `[]byte("…")`: the bytes of a string literal
   | zerosB (n : Nat)                        -- a zeroed `[n]uint8` array, as a slice
+  | zerosBn (n : Expr)                      -- `make([]byte, n, …)`: `n` zero bytes
+  | copyB (dst src : Expr)                  -- the content of `dst` after `copy(dst, src)`
   | nilI                                    -- an empty `[]int64`
   | nilU                                    -- an empty `[]uint64` / `[]float64`
   | pushI (a e : Expr)                      -- `append(a, e)` for one int64
@@ -91,6 +94,8 @@ inductive Expr where
 inductive Stmt where
   | assign (name : String) (e : Expr)
   | tapeSet (base : String) (idx e : Expr)          -- `base.tape.Tape[idx] = e`
+  | tapeAppend (base : String) (es : List Expr)     -- `base.Tape = append(base.Tape, es…)`: only for a view that is the
+                                                    -- whole tape (`lim = len`), as during parsing
   | setLen (base : String) (e : Expr)               -- `base.tape.Tape = base.tape.Tape[:e]` (Go checks `e` against the
                                                     -- capacity; only the length is modelled, so this is stricter)
   | copyStruct (dst src : String)                   -- `*dst = *src`
@@ -171,6 +176,8 @@ def binop (op : BinOp) (a b : Val) : Option Val :=
   match op, a, b with
   | .add, .int x, .int y => some (.int (x + y))
   | .sub, .int x, .int y => some (.int (x - y))
+  | .mul, .int x, .int y => some (.int (x * y))
+  | .mul, .u64 x, .u64 y => some (.u64 (x * y))
   | .div, .int x, .int y => if y = 0 then none else some (.int (Int.tdiv x y))   -- Go's `/` truncates toward zero
   | .add, .u64 x, .u64 y => some (.u64 (x + y))
   | .sub, .u64 x, .u64 y => some (.u64 (x - y))
@@ -248,7 +255,21 @@ def extCall (name : String) (args : List Val) : Option (List Val) :=
       | none => some [.u64 0, .bool true, .bool false]
     else none
   | [.bytes dst, .bytes src] =>
-    if name == "escapeBytes" then some [.bytes (escapeBytes dst src)] else none
+    if name == "escapeBytes" then some [.bytes (escapeBytes dst src)]
+    else if name == "parseStringCopy" then
+      -- `parseStringSimd(buf, &strs)`: `buf[0]` is the opening quote; the decoded bytes are appended (contract of the
+      -- assembly routine `_parse_string`: the scalar decoder; windowing: Proofs/StringWin)
+      match decodeString dst 1 dst.size with
+      | some (dec, _) => some [.bool true, .bytes (src ++ dec)]
+      | none => some [.bool false, .bytes src]
+    else none
+  | [.bytes buf, .u64 maxSize, .bool needCopy] =>
+    if name == "parseStringValidate" then
+      -- `parseStringSimdValidateOnly(buf, &maxStringSize, &size, &needCopy)`: ok, decoded length, needCopy'
+      match decodeString buf 1 maxSize.toNat with
+      | some (dec, close) => some [.bool true, .u64 (UInt64.ofNat dec.size), .bool (needCopy || (close - 1 != dec.size))]
+      | none => some [.bool false, .u64 0, .bool needCopy]
+    else none
   | [.bytes dst, .int v] =>
     if name == "AppendInt" then some [.bytes (dst ++ intToAscii v)] else none       -- strconv.AppendInt(dst, v, 10)
   | [.bytes dst, .u64 v] =>
@@ -348,6 +369,20 @@ def evalE (s : St) : Expr → EOut
   | .nilB => .val (.bytes #[])
   | .litB bs => .val (.bytes (bs.map UInt8.ofNat).toArray)
   | .zerosB n => .val (.bytes (Array.replicate n 0))
+  | .zerosBn n =>
+    match evalE s n with
+    | .val (.int k) => if 0 ≤ k then .val (.bytes (Array.replicate k.toNat 0)) else .panic
+    | .val _ => .stuck "make length"
+    | o => o
+  | .copyB dst src =>
+    match evalE s dst with
+    | .val (.bytes d) =>
+      (match evalE s src with
+       | .val (.bytes x) => let n := min d.size x.size; .val (.bytes (x.extract 0 n ++ d.extract n d.size))
+       | .val _ => .stuck "copy operand"
+       | o => o)
+    | .val _ => .stuck "copy operand"
+    | o => o
   | .nilI => .val (.ints [])
   | .nilU => .val (.u64s [])
   | .pushI a e =>
@@ -536,6 +571,11 @@ def valToInt : Val → Int
   | .bytes b => b.size
   | _ => 0
 
+def asWords : List Val → Option (List UInt64)
+  | [] => some []
+  | .u64 w :: r => (asWords r).map (w :: ·)
+  | _ => none
+
 /-- bind returned values to the targets (`_` ignores one) -/
 def assignTargets : List String → List Val → Env → Option Env
   | [], [], e => some e
@@ -585,6 +625,18 @@ def exec1 (funs : String → Option FunDef) : (fuel : Nat) → Stmt → St → O
        | o => ofE o)
     | .val _ => .stuck "index type"
     | o => ofE o
+  | fuel, .tapeAppend base es, s =>
+    match evalEs s es with
+    | .error o => ofE o
+    | .ok vs =>
+      match s.env.get (base ++ ".lim") with
+      | some (.int lim) =>
+        if lim = s.tape.size then
+          match asWords vs with
+          | some ws => .normal { env := s.env.set (base ++ ".lim") (.int (lim + ws.length)), tape := s.tape ++ ws.toArray }
+          | none => .stuck "tape value type"
+        else .stuck "append to a restricted view"
+      | _ => .stuck "lim"
   | fuel, .setLen base e, s =>
     match evalE s e with
     | .val (.int k) =>
